@@ -440,7 +440,7 @@ class CalcExpr(Expr):
                 if self.dispatch is None:
                     self.bail(e, "`self.%s`: __getattr__ could not be translated, so the name cannot be resolved" % a)
                 g = self.dispatch.resolve(a)
-                if g is None or len(g[2]) != 2:
+                if g is None or not isinstance(g[1], str) or not isinstance(g[2], str) or not re.fullmatch(r"[0-9][0-9]", g[2]):
                     self.bail(e, "`self.%s` is rejected by REGEX_CIJ %r" % (a, self.dispatch.regex))
                 i, j = int(g[2][0]), int(g[2][1])
                 if not (1 <= i <= 6 and 1 <= j <= 6):
@@ -663,11 +663,7 @@ def pressure_delegation(mod):
 
 
 def emit_calculator(res: CalcResult, want_getattr=True) -> str:
-    out = ["(* GENERATED from %s by tools/translate_vrh.py - do not edit *)" % CALC,
-           "From Coq Require Import ZArith List Bool String.",
-           "From Cij Require Import Ops VRHModel.",
-           "From CijGen Require Import VRHTieBase.",
-           "Import ListNotations.", "Local Open Scope Z_scope.", "",
+    out = ["(* ---- GENERATED from %s ---- *)" % CALC,
            "Section GenVRH.", "  Context {F : Type} {OF : Ops F}.", "  Local Open Scope ops_scope.", ""]
     for name in res.order:
         if not res.usable(name):
@@ -697,6 +693,20 @@ def emit_calculator(res: CalcResult, want_getattr=True) -> str:
         out.append("Definition g_pressure_delegation : list (string * string * bool) :=\n  [%s].\n" % ";\n   ".join(
             "(%s, %s, %s)" % (coq_str(a), coq_str(b), "true" if c else "false") for a, b, c in res.pressure))
     return "\n".join(out)
+
+
+GEN_HEADER = """(* GENERATED by tools/translate_vrh.py from the current source tree - do not edit *)
+From Coq Require Import ZArith List Bool String.
+From Cij Require Import Ops VRHModel.
+From CijGen Require Import VRHTieBase.
+Import ListNotations.
+Local Open Scope Z_scope.
+
+"""
+
+
+def gen_file(*bodies):
+    return GEN_HEADER + "\n".join(b for b in bodies if b)
 
 
 def ostr(s):
@@ -843,8 +853,12 @@ class StaticTr:
                         self.inverse_of = "whole 6x6 cij"
                         return
                     self.bail(s, "`%s`: numpy.linalg.inv applied to something other than the whole filled 6x6 `cij`" % t)
-                if nm in self.arrays or nm in ("df", "numpy", "itertools", "input02", "sys"):
-                    self.bail(s, "`%s`: tracked name `%s` is rebound in an unknown way" % (t[:100], nm))
+                if nm in self.arrays or nm in ("cij", "sij"):
+                    self.bail(s, "`%s`: array `%s` is bound in an unsupported way (accepted: `%s` + the literal fill loop; "
+                                 "`X = numpy.linalg.inv(cij)` of the whole filled cij; `X = numpy.zeros((Y.shape[0], 7, 7))` "
+                                 "+ `X[:, 1:, 1:] = Y[:, :, :]`)" % (t[:100], nm, STATIC_ZEROS6))
+                if nm in ("df", "numpy", "itertools", "input02", "sys"):
+                    self.bail(s, "`%s`: name `%s` is rebound" % (t[:100], nm))
                 # local scalar: its own definition
                 ident, term = self.ex.bind_local(s, reserved=("df", "numpy", "itertools", "input02", "sys", "cij", "sij"))
                 self.defs.append(("g_st_local_" + nm, term))
@@ -961,10 +975,7 @@ def translate_static(source):
     if missing:
         raise TranslateError(STATIC, blk, "columns %s are not computed by the translated blocks" % ", ".join(missing))
 
-    out = ["(* GENERATED from %s by tools/translate_vrh.py - do not edit *)" % STATIC,
-           "From Coq Require Import ZArith List Bool String.",
-           "From Cij Require Import Ops VRHModel.",
-           "Import ListNotations.", "Local Open Scope Z_scope.", "",
+    out = ["(* ---- GENERATED from %s ---- *)" % STATIC,
            "(* one table row: c / s = the whole 6x6 cij and numpy.linalg.inv of the whole cij, 1-based;\n"
            "   rho0 = the density column on entry of the VRH block; to_gcm3 / to_kms = cij.util.units._to_gcm3 / _to_kms *)",
            "Section GenStatic.", "  Context {F : Type} {OF : Ops F}.", "  Local Open Scope ops_scope.", ""]
@@ -974,6 +985,8 @@ def translate_static(source):
         out.append("  Definition g_st_%s := g_st_%s_%d." % (col, col, tr.version[col]))
     out.append("End GenStatic.\n")
     out.append("Local Open Scope string_scope.")
+    idents = ["g_st_%s" % c for c in sorted(tr.version)] + [i for i, _ in reversed(tr.defs)]
+    out.append("Ltac g_st_unfold := unfold %s." % ", ".join(idents))
     out.append("Definition g_st_inverse_of : string := %s." % coq_str(tr.inverse_of))
     out.append("Definition g_st_arrays : list (string * string) :=\n  [%s]." % "; ".join(
         "(%s, %s)" % (coq_str(a), coq_str("%s %s" % st)) for a, st in sorted(tr.arrays.items())))
@@ -988,8 +1001,9 @@ if __name__ == "__main__":
                              open(root + "/cij/util/voigt.py").read())
     for k, e in r.errors.items():
         print("(* ERROR %s: %s *)" % (k, e))
-    print(emit_calculator(r))
+    st = ""
     try:
-        print(translate_static(open(root + "/" + STATIC).read())[0])
+        st = translate_static(open(root + "/" + STATIC).read())[0]
     except TranslateError as e:
         print("(* ERROR static: %s *)" % e)
+    print(gen_file(emit_calculator(r), st))
